@@ -400,6 +400,12 @@ def canon_graph(models, ptr_map=None):
 # ---------------------------------------------------------------------------------------------
 # O-NF: normal form over IR and over emitted annotation text
 
+class _IdentitySig(dict):
+    """model signature = its own index (two pointers are duplicates only if they target the same model)"""
+    def get(self, k, default=None):
+        return k
+
+
 def nf_violations(t, sreg, where="", top=True):
     """list of (clause, where) for a type of an inferred model field"""
     out = []
@@ -411,8 +417,6 @@ def nf_violations(t, sreg, where="", top=True):
     elif isinstance(t, dt.DOptional):
         if isinstance(t.type, dt.DOptional):
             out.append(("optional-in-optional", where))
-        if t.type is dt.Null:
-            out.append(("optional-of-null", where))
         c(t.type, "?")
     elif isinstance(t, dt.DUnion):
         ms = list(t.types)
@@ -420,8 +424,7 @@ def nf_violations(t, sreg, where="", top=True):
             out.append(("empty-union", where))
         if len(ms) == 1:
             out.append(("single-member-union", where))
-        hs = [dt.get_hash_string(m) if not isinstance(m, dict) else "dict" for m in ms]
-        canon = [repr(canon_type(m, {})) if not isinstance(m, dict) else "dict" for m in ms]
+        canon = [repr(canon_type(m, _IdentitySig())) if not isinstance(m, dict) else "dict%d" % i for i, m in enumerate(ms)]
         if len(set(canon)) != len(canon):
             out.append(("duplicate-union-member", where))
         if any(isinstance(m, dt.DUnion) for m in ms):
@@ -437,12 +440,6 @@ def nf_violations(t, sreg, where="", top=True):
         strish = [m for m in ms if isinstance(m, dt.StringLiteral) or (isclass(m) and issubclass(m, dt.StringSerializable))]
         if str in ms and strish:
             out.append(("str-next-to-literal-or-pseudo", where))
-        if sum(isinstance(m, dt.DList) for m in ms) > 1:
-            out.append(("two-list-members", where))
-        if sum(isinstance(m, dt.DDict) for m in ms) > 1:
-            out.append(("two-dict-members", where))
-        if sum(isinstance(m, dt.StringLiteral) for m in ms) > 1:
-            out.append(("two-literal-members", where))
         for i, m in enumerate(ms):
             c(m, "|%d" % i)
     elif isinstance(t, dt.DList):
@@ -651,117 +648,116 @@ def specific_kind(v):
 
 
 def tightness_violations(routing, reg, sreg_names, exact_strings=True):
-    """O-WITNESS clauses + O-STRREF at untainted positions. -> list of (clause, detail)"""
+    """O-WITNESS clauses + O-STRREF at untainted positions. -> (list of (clause, detail), stats)
+
+    Routing over-approximates (an object goes to every admitting member), so a clause can miss a loose type but
+    cannot alarm on a tight one.  vals are (value, tainted) pairs; nulls included."""
     viol = []
     stats = collections.Counter()
 
-    def members_of(t):
-        if isinstance(t, dt.DOptional):
-            t = t.type
-        return list(t.types) if isinstance(t, dt.DUnion) else [t]
+    def vs(vals):
+        return short([v for v, _ in vals])
 
-    def chk(t, vals, where):
-        # vals: list of (value, tainted) observed at this position (nulls included)
-        if isinstance(t, dt.DOptional):
-            inner = [(v, tn) for v, tn in vals if v is not None]
-            chk(t.type, inner, where + "?")
-            return
-        nn = [(v, tn) for v, tn in vals if v is not None] if False else vals
-        if isinstance(t, dt.DUnion):
-            for x in t.types:
-                sub = [(v, tn) for v, tn in vals if inhabits(v, x)]
-                if not witness_for_member(x, [v for v, _ in sub], t.types):
-                    viol.append(("union-member-without-witness", f"{where}: {x} in {t}; values={short([v for v, _ in vals])}"))
-                chk_member(x, sub, where + "|")
-            string_component(t.types, vals, where)
-            return
-        string_component([t], vals, where)
-        chk_member(t, vals, where)
-
-    def witness_for_member(x, sub, siblings):
-        if not sub:
-            return False
+    def member_witness(x, vals):
+        """does some value's most specific classification equal member x"""
+        if isinstance(x, (dt.ModelPtr, dt.DList, dt.DDict)):
+            return any(inhabits(v, x) for v, _ in vals)
+        if isinstance(x, dt.StringLiteral):
+            return any(isinstance(v, str) and inhabits(v, x) for v, _ in vals)
         if x is float:
-            return any(type(v) is float for v in sub)
+            return any(type(v) is float for v, _ in vals)
+        if x is int:
+            return any(type(v) is int for v, _ in vals)
+        if x is bool:
+            return any(type(v) is bool for v, _ in vals)
+        if x is str:
+            return any(isinstance(v, str) for v, _ in vals)
+        if x is dt.Null:
+            return any(v is None for v, _ in vals)
         if isclass(x) and issubclass(x, dt.StringSerializable):
-            if x is pl.FloatString and pl.IntString in sreg_classes:
-                # FloatString next to plain members needs a string that is not just an int string,
-                # unless int strings were absorbed (documented collapse Int->Float): any accepted string is a witness
-                return True
-            return True
+            return any(isinstance(v, str) and detect_ref(v, sreg_names) == x.__name__ for v, _ in vals)
         return True
 
-    def chk_member(t, vals, where):
-        if isinstance(t, dt.DList):
-            lists = [(v, tn) for v, tn in vals if isinstance(v, list)]
-            els = [(e, tn) for v, tn in lists for e in v]
-            if t.type is dt.Unknown:
-                stats["any-elem"] += 1
-                if not any(all(e is None for e in v) for v, _ in lists):
-                    viol.append(("any-without-empty-container", f"{where}: values={short([v for v, _ in vals])}"))
-            else:
-                if lists and not els:
-                    viol.append(("element-type-without-witness", f"{where}: {t}"))
-                chk(t.type, els, where + "[]")
-        elif isinstance(t, dt.DDict):
-            ds = [(v, tn) for v, tn in vals if isinstance(v, dict)]
-            els = [(e, tn) for v, tn in ds for e in v.values()]
-            if t.type is dt.Unknown:
-                stats["any-elem"] += 1
-                if not any(all(e is None for e in v.values()) for v, _ in ds):
-                    viol.append(("any-without-empty-container", f"{where}: values={short([v for v, _ in vals])}"))
-            else:
-                if ds and not els:
-                    viol.append(("element-type-without-witness", f"{where}: {t}"))
-                chk(t.type, els, where + "{}")
-        elif isinstance(t, dt.StringLiteral):
-            if not t.overflowed:
-                extra = set(t.literals) - {v for v, _ in vals if isinstance(v, str)}
+    def chk(t, vals, where):
+        if isinstance(t, dt.DOptional):
+            if not any(v is None for v, _ in vals):
+                viol.append(("inner-optional-without-null", f"{where}: {t}; values={vs(vals)}"))
+            chk(t.type, [(v, tn) for v, tn in vals if v is not None], where + "?")
+            return
+        members = list(t.types) if isinstance(t, dt.DUnion) else [t]
+        string_component(members, vals, where)
+        for x in members:
+            if x is dt.Unknown:
+                viol.append(("any-outside-container", f"{where}: {t}"))
+                continue
+            if len(members) > 1 or not isinstance(x, (dt.DList, dt.DDict, dt.ModelPtr)):
+                if not member_witness(x, vals):
+                    clause = "union-member-without-witness" if len(members) > 1 else "type-without-witness"
+                    viol.append((clause, f"{where}: {x} in {t}; values={vs(vals)}"))
+            if isinstance(x, (dt.DList, dt.DDict)):
+                islist = isinstance(x, dt.DList)
+                w = where + ("[]" if islist else "{}")
+                if islist:
+                    conts = [(v, tn) for v, tn in vals if isinstance(v, list)]
+                else:
+                    # a dict value may belong to a model member instead; below an ambiguous point values are tainted
+                    conts = []
+                    for v, tn in vals:
+                        if isinstance(v, dict) and inhabits(v, x):
+                            amb = sum(1 for y in members if isinstance(y, (dt.ModelPtr, dt.DDict)) and inhabits(v, y)) > 1
+                            conts.append((v, tn or amb))
+                els = [(e, tn) for v, tn in conts for e in (v if islist else v.values())]
+                if x.type is dt.Unknown:
+                    stats["any-element-positions"] += 1
+                    if not any(all(e is None for e in (v if islist else v.values())) for v, _ in conts):
+                        viol.append(("any-without-empty-container", f"{w}: values={vs(vals)}"))
+                else:
+                    if not els:
+                        viol.append(("element-type-without-witness", f"{w}: {x}; values={vs(vals)}"))
+                    else:
+                        chk(x.type, els, w)
+            elif isinstance(x, dt.StringLiteral) and not x.overflowed:
+                extra = set(x.literals) - {v for v, _ in vals if isinstance(v, str)}
                 if extra:
-                    viol.append(("literal-not-observed", f"{where}: {sorted(extra)}"))
-        elif t is dt.Unknown:
-            viol.append(("any-outside-container", where))
-        elif t is float:
-            if not any(type(v) is float for v, _ in vals):
-                viol.append(("float-without-float-witness", f"{where}: values={short([v for v, _ in vals])}"))
-        elif t is int or t is bool or t is str or t is dt.Null:
-            want = {int: "int", bool: "bool", str: "str", dt.Null: "null"}[t]
-            if vals and not any(specific_kind(v) == want for v, _ in vals):
-                viol.append(("scalar-type-without-witness", f"{where}: {t}; values={short([v for v, _ in vals])}"))
-        elif isclass(t) and issubclass(t, dt.StringSerializable):
-            if vals and not any(isinstance(v, str) and accepts(t, v) for v, _ in vals):
-                viol.append(("pseudo-type-without-witness", f"{where}: {t.__name__}"))
+                    viol.append(("literal-not-observed", f"{where}: {sorted(extra)}; values={vs(vals)}"))
 
     def string_component(members, vals, where):
         if not exact_strings:
             return
+        S = [v for v, _ in vals if isinstance(v, str)]
+        got = {canon_str_member(x) for x in members} - {None}
+        if not S and not got:
+            return
         if any(tn for _, tn in vals):
             stats["tainted-positions"] += 1
             return
-        S = [v for v, _ in vals if isinstance(v, str)]
-        got = {canon_str_member(x) for x in members} - {None}
         exp = strref(S, sreg_names)
         stats["strref-positions"] += 1
         if got != exp:
-            viol.append(("string-component-mismatch", f"{where}: got={sorted(map(repr, got))} expected={sorted(map(repr, exp))} strings={short(S)}"))
+            viol.append(("string-component-mismatch",
+                         f"{where}: got={sorted(map(repr, got))} expected={sorted(map(repr, exp))} strings={short(S)}"))
 
-    sreg_classes = {pl.PSEUDO[n] for n in sreg_names}
     for m in reg.models:
         if not routing.objects.get(m.index):
             stats["orphan-models"] += 1
             continue
         for k, t in m.type.items():
             vals = routing.fieldvals.get((m.index, k), [])
+            where = f"{m.name or m.index}.{k}"
             if isinstance(t, dt.DOptional):
                 if not routing.absent.get((m.index, k)) and not any(v is None for v, _ in vals):
-                    viol.append(("optional-without-witness", f"{m}.{k}: {t}; values={short([v for v, _ in vals])}"))
-            if t is dt.Unknown:
-                viol.append(("any-outside-container", f"{m}.{k}"))
+                    viol.append(("optional-without-witness", f"{where}: {t}; values={vs(vals)}"))
+                t = t.type
+                vals = [(v, tn) for v, tn in vals if v is not None]
+                if not vals:
+                    # only ever null/missing: nothing can witness the inner type
+                    if t is not dt.Null and not isinstance(t, (dt.DOptional,)):
+                        viol.append(("field-type-without-witness", f"{where}: Optional[{t}] but no non-null value"))
+                    continue
+            elif not vals:
+                viol.append(("field-without-witness", f"{where}: {t}"))
                 continue
-            if not vals:
-                viol.append(("field-without-witness", f"{m}.{k}: {t}"))
-                continue
-            chk(t, vals, f"{m.name or m.index}.{k}")
+            chk(t, vals, where)
     return viol, stats
 
 
